@@ -200,6 +200,60 @@ def freq_formula(c, res):
                     bf.body.path, 'SPEC-SHAPE(reference conversion)', instance='%s: PLL steps = reference integer formula (32 MHz crystal, shift %d, rounding to nearest)' % (chip, shift))
 
 
+# SX1261/2 data sheet table 13-21 (optimal PA settings): row = (highest output power of the row [dBm], paDutyCycle, hpMax,
+# SetTxParams power at that output power); and the lowest power each PA supports (13.4.4 SetTxParams)
+PA_TABLES = {
+    'SX1261_PA_TABLE': (-17, [(10, 0x01, 0x00, 13), (14, 0x04, 0x00, 14), (15, 0x06, 0x00, 14)]),
+    'SX1262_PA_TABLE': (-9, [(14, 0x02, 0x02, 22), (17, 0x02, 0x03, 22), (20, 0x03, 0x05, 22), (22, 0x04, 0x07, 22)]),
+}
+# SX1261/2 data sheet table 9-2 (image calibration over the ISM bands): band [Hz] -> (freq1, freq2)
+IMAGE_CAL = [((430000000, 440000000), (0x6B, 0x6F)), ((470000000, 510000000), (0x75, 0x81)), ((779000000, 787000000), (0xC1, 0xC5)),
+             ((863000000, 870000000), (0xD7, 0xDB)), ((902000000, 928000000), (0xE1, 0xE9))]
+
+
+def pa_tables(c, res):
+    from .. import tables
+    prog = c.prog
+    for name, (min_dbm, rows) in sorted(PA_TABLES.items()):
+        bl = prog.by_short.get('lora_phy::sx126x::variant::' + name) or []
+        if len(bl) != 1:
+            raise CheckError('anchor: %s' % name)
+        an, fr, out, rv = tables.run_fn(prog, bl[0])
+        got_rows, got_min = None, None
+        if rv is not None and rv[0] == 'adt':
+            got_min = tables._single(out, an.field_of(rv, 0, 'min_dbm', out, fr))
+            ent = an.field_of(rv, 0, 'entries', out, fr)
+            arr = an.read_ptr(ent[1], fr, out) if ent[0] in ('ref', 'sref') else None
+            if arr is not None and arr[0] == 'array' and isinstance(arr[1], int):
+                got_rows = []
+                for i in range(arr[1]):
+                    e = arr[2].get(i, arr[3])
+                    got_rows.append(tuple(tables._single(out, an.field_of(e, 0, f, out, fr)) for f in ('max_dbm', 'pa_duty_cycle', 'hp_max', 'tx_params_at_max')) if e is not None else None)
+        res.require(got_min == min_dbm and got_rows == rows, 'C13:%s' % name, '%s is (min %s dBm, rows %s); data sheet table 13-21: (min %d dBm, rows %s)' % (name, got_min, got_rows, min_dbm, rows),
+                    'lora_phy::sx126x::variant::' + name, 'TABLE(PA optimal settings, data sheet 13-21)', instance='%s = data sheet rows %s' % (name, rows))
+
+
+def image_calibration(c, res):
+    """CalibrateImage bytes for every frequency of each ISM band of data sheet table 9-2: the operation is analysed once per band with
+    the frequency confined to the band (interval), so the verdict covers every frequency in it"""
+    prog = c.prog
+    bl = prog.by_short.get(CHIPS['sx126x'] + 'calibrate_image') or []
+    if len(bl) != 1:
+        raise CheckError('anchor: sx126x calibrate_image')
+    body = bl[0]
+    for (lo, hi), (f1, f2) in IMAGE_CAL:
+        def setup(an_, fr, st, lo=lo, hi=hi):
+            for i in range(1, body.argc + 1):
+                if body.local_name(i) == 'frequency_in_hz':
+                    sym = 'p%d_frequency_in_hz' % i
+                    st.lo[sym], st.hi[sym] = lo, hi
+        got = [json.loads(k) for k, _ in spi.transactions(prog, body, setup=setup)]
+        want = [['write', ['0x98', '0x%02X' % f1, '0x%02X' % f2]]]
+        res.require(got == want, 'C13:sx126x::calibrate_image:%d-%d' % (lo // 1000000, hi // 1000000),
+                    'sx126x calibrate_image for %d..%d MHz issues %s; data sheet table 9-2: CalibrateImage(0x%02X, 0x%02X)' % (lo // 1000000, hi // 1000000, got, f1, f2), body.path,
+                    'TABLE(image calibration per ISM band, data sheet 9-2)', instance='sx126x calibrate_image, %d..%d MHz: 0x98 0x%02X 0x%02X' % (lo // 1000000, hi // 1000000, f1, f2))
+
+
 def _bits_of(tok):
     if tok == 'any':
         return ['?'] * 8
@@ -281,6 +335,8 @@ def run(tier):
         res.require(codes.get(key) == want['codes'].get(key), 'C13:%s:code-table' % key, 'parameter codes %s: %s (data sheet: %s)' % (key, codes.get(key), want['codes'].get(key)), key,
                     'TABLE(parameter codes over every enum value)', instance='%s codes as in the data sheet' % key)
     freq_formula(c, res)
+    pa_tables(c, res)
+    image_calibration(c, res)
     # FIELD-FIT: a value packed into a command / register byte by a constant left shift must fit the field - no set bit
     # may be shifted out of the type (Rust does not check this). Judged with the interval of the operand in every
     # context of the analysed operations (all arguments and chip bytes symbolic).
